@@ -22,7 +22,7 @@ def oracle(res):
         w = l.split()
         if w[0] == "call":
             last_call[w[1]] = w
-            if w[2] == "unlock" and kinds.get(w[3]) in ("mutex", "rmutex"):
+            if w[2] == "unlock" and kinds.get(w[3]) in ("mutex", "rmutex", "cmutex"):
                 h = holders.setdefault(w[3], {})
                 if h.get(w[1], 0) > 0:
                     h[w[1]] -= 1
@@ -32,7 +32,7 @@ def oracle(res):
             ended.add(w[1])
         elif w[0] == "ret" and w[2] in ("lock", "trylock"):
             c = last_call.get(w[1])
-            if not c or kinds.get(c[3]) not in ("mutex", "rmutex"):
+            if not c or kinds.get(c[3]) not in ("mutex", "rmutex", "cmutex"):
                 continue
             m = c[3]
             h = holders.setdefault(m, {})
@@ -40,7 +40,7 @@ def oracle(res):
                 others = [t for t in h if t != w[1]]
                 if others:
                     out.append("two threads inside mutex %s: %s acquired it while %s holds it" % (m, w[1], others[0]))
-                if kinds[m] == "mutex" and h.get(w[1], 0) > 0:
+                if kinds[m] in ("mutex", "cmutex") and h.get(w[1], 0) > 0:
                     out.append("plain mutex %s acquired twice by %s" % (m, w[1]))
                 h[w[1]] = h.get(w[1], 0) + 1
             else:
